@@ -188,6 +188,31 @@ impl RoutingThread {
                 self.process_peer_services(services, peer_index).await;
             }
             Message::GhostChain(chain) => {
+                {
+                    // only lite nodes sync through ghost chains, and only from peers they have authenticated
+                    let configs = self.config_lock.read().await;
+                    if !configs.is_browser() && !configs.is_spv_mode() {
+                        warn!(
+                            "ignoring ghost chain from peer : {:?} since this is a full node",
+                            peer_index
+                        );
+                        return;
+                    }
+                }
+                {
+                    let peers = self.network.peer_lock.read().await;
+                    let authenticated = peers
+                        .find_peer_by_index(peer_index)
+                        .map(|peer| peer.public_key.is_some())
+                        .unwrap_or(false);
+                    if !authenticated {
+                        warn!(
+                            "ignoring ghost chain from peer : {:?} which has not completed the handshake",
+                            peer_index
+                        );
+                        return;
+                    }
+                }
                 self.process_ghost_chain(chain, peer_index).await;
             }
             Message::GhostChainRequest(block_id, block_hash, fork_id) => {
